@@ -758,6 +758,7 @@ class State:
         self.fresh_refs = set()
         self.reg_class = {}
         self.alloc_class = {}
+        self.escaped = set()      # refs allocated on this path that were handed to other code / stored somewhere
         self.heap_gen = 0         # bumped by havoc-all: names of not-yet-materialised field arrays
         self.globals_store = {}  # (module, name) -> term for mutable module globals / class attrs
         for ref, (cid, m) in table.enum_by_ref.items():
@@ -787,7 +788,17 @@ class State:
     def get_field(self, ref_int, name):
         return z3.Select(self.field_arr(name), ref_int)
 
+    def mark_escaped(self, *vals):
+        for v in vals:
+            try:
+                s_ = z3.simplify(v)
+                if z3.is_app(s_) and s_.decl().name() == "VRef" and z3.is_int_value(s_.arg(0)):
+                    self.escaped.add(s_.arg(0).as_long())
+            except Exception:
+                pass
+
     def set_field(self, ref_int, name, val):
+        self.mark_escaped(val)
         self.fields[name] = z3.Store(self.field_arr(name), ref_int, val)
         self.writes.append(("field", ref_int, name))
 
@@ -814,6 +825,7 @@ class State:
     def new_list(self, items, cid_name="list"):
         rid = self.alloc(self.table.id(cid_name))
         arr = z3.K(I, VNone)
+        self.mark_escaped(*items)
         for i, it in enumerate(items):
             arr = z3.Store(arr, z3.IntVal(i), it)
         self.lel = z3.Store(self.lel, z3.IntVal(rid), arr)
@@ -832,6 +844,7 @@ class State:
         val = z3.K(Val, VNone)
         n = z3.IntVal(0)
         for k, v in pairs:
+            self.mark_escaped(k, v)
             n = z3.If(z3.Select(has, k), n, n + 1)
             has = z3.Store(has, k, z3.BoolVal(True))
             val = z3.Store(val, k, v)
